@@ -78,11 +78,12 @@ Section One.
     (forall e, elem_count e (mol_of_host hb) = elem_count e (mol_of_host host)) /\
     total_charge (mol_of_host hb) = total_charge (mol_of_host host) /\
     (forall a b, In a (node_ids host) -> In b (node_ids host) -> adj hb a b = adj host a b) /\
-    (forall a, In a (node_ids host) -> In a (node_ids hb)).
+    (forall a, In a (node_ids host) -> In a (node_ids hb)) /\
+    (forall n a, label host n = Some a -> exists a', label hb n = Some a' /\ set_hc a' 0 = set_hc a 0).
   Proof.
-    destruct Hb as [->|(nodes & ->)]; [repeat split; auto|].
+    destruct Hb as [->|(nodes & ->)]; [repeat split; auto; intros n a Hl; exists a; auto|].
     destruct (h_to_explicit_accounting host nodes (wf_host_nodup host Hwh)) as (X1 & X2 & X3 & X4 & _).
-    split; [exact X1|]. split; [exact X2|]. split; [exact X3|].
+    split; [exact X1|]. split; [exact X2|]. split; [exact X3|]. split; [|exact X4].
     intros a Ia. unfold node_ids in Ia. apply in_map_iff in Ia. destruct Ia as ([k v] & <- & Ia).
     destruct (X4 k v (assoc_nodup_in k (gnodes host) v (wf_host_nodup host Hwh) Ia)) as (a' & Hl & _).
     unfold label in Hl. apply assoc_in in Hl. exact (in_map fst _ (k, a') Hl).
@@ -97,7 +98,7 @@ Section One.
        (forall e, elem_count e (fst (its_decompose g)) = elem_count e (snd (its_decompose g))) /\
        total_charge (fst (its_decompose g)) = total_charge (snd (its_decompose g))).
   Proof.
-    intros Hres. destruct base_facts as (F1 & F2 & F3 & F4).
+    intros Hres. destruct base_facts as (F1 & F2 & F3 & F4 & _).
     pose proof (glued_nodup hb rc m T Hwx Hwr Hm Hg) as Hnd.
     destruct (left_is_host hb rc m T Hwx Hwr Hm Hg) as (L1 & _ & L3).
     destruct (left_is_host_dec hb rc m T Hwx Hwr Hm Hg) as (D1 & _).
@@ -118,6 +119,22 @@ Section One.
       + intros Hbal. destruct (conserve_balanced hb rc m T Hwx Hwr Hm Hg Hbal) as (C1 & C2). split.
         * intros e. destruct (B1 e) as [E1 E2]. rewrite E1, E2. apply C1.
         * rewrite B2, B3. exact C2.
+  Qed.
+
+  (** clause (a) atom by atom *)
+  Theorem result_atoms :
+    (g = T \/ exists ms, explicit_h_ord ord T = Some (g, ms)) ->
+    forall n a, label host n = Some a -> exists a', label g n = Some a' /\ set_hc (iG a') 0 = set_hc a 0.
+  Proof.
+    intros Hres n a Hl. destruct base_facts as (_ & _ & _ & _ & F5).
+    destruct (F5 n a Hl) as (a1 & L1 & S1).
+    destruct (left_is_host hb rc m T Hwx Hwr Hm Hg) as (_ & L2 & _). specialize (L2 n). rewrite L1 in L2.
+    destruct (label T n) as [t|] eqn:Lt; [|discriminate]. cbn [option_map] in L2. inversion L2 as [E].
+    destruct Hres as [->|(ms & He)].
+    - exists t. split; [exact Lt|]. rewrite E. exact S1.
+    - pose proof (glued_nodup hb rc m T Hwx Hwr Hm Hg) as Hnd.
+      destruct (explicit_h_ord_accounting ord ord_in T g ms Hnd He) as (_ & _ & _ & _ & B5 & _).
+      destruct (B5 n t Lt) as (t' & Lg & (S2 & _)). exists t'. split; [exact Lg|]. rewrite S2, E. exact S1.
   Qed.
 
   (** clause (c): the changed bonds *)
@@ -164,6 +181,7 @@ Proof.
   destruct (result_sound (ord_of tbl) (ord_of_in tbl) (i_host inp) hb rc x T g Hwh Kb Kw Hwr Km Eg Hres) as (A1 & A2 & A3 & A4).
   destruct (result_changed_bonds (ord_of tbl) (ord_of_in tbl) hb rc x T g Kw Hwr Km Eg) as (C1 & C2).
   destruct (glued_atoms hb rc x T Hwr Km Eg) as (G1 & G2).
+  pose proof (result_atoms (ord_of tbl) (ord_of_in tbl) (i_host inp) hb rc x T g Hwh Kb Kw Hwr Km Eg Hres) as A5.
   repeat (split; [assumption|]). exact C2.
 Qed.
 
@@ -207,7 +225,7 @@ Theorem its_list_default_mode inp tpl rc l r gs :
 Proof.
   intros Ei Es Hnd Hel Hsi Hc Hwh Hwr Hcalls Hits g Ig. rewrite Es in Ei.
   destruct (its_list_sound inp rc l r gs Ei Hwh Hwr Hcalls Hits g Ig)
-    as (hb & m & T & tbl & _ & _ & _ & _ & _ & A1 & A2 & A3 & A4 & _).
+    as (hb & m & T & tbl & _ & _ & _ & _ & _ & A1 & A2 & A3 & _ & A4 & _).
   destruct (A4 (default_rule_balanced tpl rc l r Hnd Hel Hsi Es Hc)) as [B1 B2]. auto.
 Qed.
 
